@@ -48,27 +48,80 @@ def fixedMs : Members → Option Nat
   | .cons m ms => optAdd (fixedM m) (fixedMs ms)
 end
 
-/-! ## bounds (C09) -/
+/-! ## bounds (C09): interval arithmetic over the whole conditional structure -/
+
+/-- `hi = none` means unbounded by the definition (endless arrays, counted arrays with a wide count) -/
 structure Bounds where
   lo : Nat
-  hi : Nat
+  hi : Option Nat
   deriving Repr, DecidableEq, Inhabited
 
-def Bounds.add (a b : Bounds) : Bounds := ⟨a.lo + b.lo, a.hi + b.hi⟩
-def Bounds.join (a b : Bounds) : Bounds := ⟨min a.lo b.lo, max a.hi b.hi⟩
-def Bounds.scale (n : Nat) (a : Bounds) : Bounds := ⟨n * a.lo, n * a.hi⟩
+def optAddHi : Option Nat → Option Nat → Option Nat
+  | some a, some b => some (a + b)
+  | _, _ => none
+def optMaxHi : Option Nat → Option Nat → Option Nat
+  | some a, some b => some (max a b)
+  | _, _ => none
+def optMulHi (n : Option Nat) (h : Option Nat) : Option Nat :=
+  match n, h with
+  | some 0, _ => some 0
+  | _, some 0 => some 0
+  | some a, some b => some (a * b)
+  | _, _ => none
+
+def Bounds.add (a b : Bounds) : Bounds := ⟨a.lo + b.lo, optAddHi a.hi b.hi⟩
+def Bounds.join (a b : Bounds) : Bounds := ⟨min a.lo b.lo, optMaxHi a.hi b.hi⟩
+def Bounds.zero : Bounds := ⟨0, some 0⟩
 
 def leafBounds (L : Limits) : Leaf → Bounds
-  | .int k _ => ⟨k, k⟩
-  | .bool k => ⟨k, k⟩
-  | .enumT k _ _ => ⟨k, k⟩
-  | .lvl k => ⟨k, k⟩
-  | .dateTime => ⟨4, 4⟩
-  | .cstring => ⟨1, L.cstringMax⟩
-  | .sizedCString => ⟨5, L.sizedCStringMax⟩
-  | .string => ⟨1, L.stringMax⟩
-  | .packedGuid => ⟨1, 9⟩
-  | .prim _ => ⟨0, 0⟩
+  | .int k _ => ⟨k, some k⟩
+  | .bool k => ⟨k, some k⟩
+  | .enumT k _ _ => ⟨k, some k⟩
+  | .lvl k => ⟨k, some k⟩
+  | .dateTime => ⟨4, some 4⟩
+  | .cstring => ⟨1, some L.cstringMax⟩
+  | .sizedCString => ⟨5, some L.sizedCStringMax⟩
+  | .string => ⟨1, some L.stringMax⟩
+  | .packedGuid => ⟨1, some 9⟩
+  | .prim _ => ⟨0, none⟩
+
+/-- static environment: largest value a scalar field can carry (`256^k - 1`) -/
+abbrev SEnv := List (Nat × Nat)
+
+def leafMax : Leaf → Option Nat
+  | .int k _ => some (256 ^ k - 1)
+  | .lvl _ => some 255
+  | .bool _ => some 1
+  | .enumT _ _ vals => some (vals.foldl max 0)
+  | _ => none
+
+mutual
+def boundsTy (L : Limits) : Ty → SEnv → Bounds
+  | .leaf l, _ => leafBounds L l
+  | .struct ms, _ => boundsMs L ms []
+  | .arrFixed n t, se => let b := boundsTy L t se; ⟨n * b.lo, optMulHi (some n) b.hi⟩
+  | .arrVar v t, se => let b := boundsTy L t se; ⟨0, optMulHi (se.lookup v) b.hi⟩
+
+def boundsM (L : Limits) : Member → SEnv → Bounds × SEnv
+  | .field id _ t, se =>
+      let se' := match t with
+        | .leaf l => (match leafMax l with | some m => (id, m) :: se | none => se)
+        | _ => se
+      (boundsTy L t se, se')
+  | .ifs _ bs, se => (boundsB L bs se, se)
+  | .endless _ _, se => (⟨0, some L.endlessMax⟩, se)      -- the published limit of an endless array (u16::MAX bytes)
+  | .optional ms, se => (⟨0, (boundsMs L ms se).hi⟩, se)
+
+def boundsB (L : Limits) : Branches → SEnv → Bounds
+  | .els ms, se => boundsMs L ms se
+  | .cons _ ms bs, se => (boundsMs L ms se).join (boundsB L bs se)
+
+def boundsMs (L : Limits) : Members → SEnv → Bounds
+  | .nil, _ => Bounds.zero
+  | .cons m ms, se => let (b, se') := boundsM L m se; b.add (boundsMs L ms se')
+end
+
+def bounds (L : Limits) (c : Members) : Bounds := boundsMs L c []
 
 /-! ## the read expression the printer emits for an enum member -/
 inductive ReadExpr where
